@@ -402,6 +402,11 @@ def _directed() -> Dict[str, Dict[str, Any]]:
     add('empty-files', {'pkg/__init__.py': '', 'pkg/a.py': '', 'pkg/b.py': '\n\n\n', 'pkg/c.py': '"""only a docstring"""', 'pkg/d.py': '# only a comment', 'pkg/e.py': '\x0c\n', 'pkg/sub/__init__.py': '', 'pkg/good.py': GOOD})
     add('broken-init', {'pkg/__init__.py': 'def broken(:\n', 'pkg/good.py': GOOD, 'pkg/sub/__init__.py': 'x = (\n', 'pkg/sub/good2.py': GOOD}, broken=['pkg/__init__.py', 'pkg/sub/__init__.py'])
     add('broken-imported-first', {'pkg/__init__.py': 'from .zbroken import thing\nfrom .zbroken import *\nfrom . import zbroken\n', 'pkg/a.py': 'from pkg.zbroken import x\nimport pkg.zbroken\nclass A(pkg.zbroken.B): pass\n', 'pkg/zbroken.py': 'class B:\npass\n', 'pkg/good.py': GOOD}, broken=['pkg/zbroken.py'])
+    add('reexport-root-package', {'pkg/__init__.py': 'from pkg.sub import *\nfrom .pkg import pkg\n__all__ = ["pkg", "sub", "other", "good"]\n', 'pkg/sub.py': 'import pkg.other\nimport other_root\nfrom . import good\nclass InSub: pass\n',
+                                   'pkg/pkg.py': 'def pkg(): pass\n', 'pkg/other.py': 'from pkg import *\nfrom pkg.sub import *\n__all__ = ["pkg", "other_root"]\nimport other_root, pkg\n', 'pkg/good.py': GOOD,
+                                   'other_root.py': 'from pkg import *\nimport pkg\n__all__ = ["pkg", "sub"]\nfrom pkg import sub\n'}, roots=['pkg', 'other_root.py'])
+    add('reexport-modules', {'pkg/__init__.py': 'from . import a, b\nfrom .sub import deep\nfrom .a import b as c\n__all__ = ["a", "b", "deep", "c", "pkg", "__init__"]\n', 'pkg/a.py': 'from . import b\nfrom .b import a\n__all__ = ["b", "a"]\n',
+                              'pkg/b.py': 'from . import a\nfrom pkg import sub\n__all__ = ["a", "sub"]\n', 'pkg/sub/__init__.py': 'from .. import a as deep\n__all__ = ["deep"]\n', 'pkg/sub/deep.py': 'from ... import pkg\n', 'pkg/good.py': GOOD})
     add('same-path-twice', {'pkg/__init__.py': '', 'pkg/good.py': GOOD}, roots=['pkg', 'pkg'])
     add('several-roots', {'pkg/__init__.py': '', 'pkg/good.py': GOOD, 'other/__init__.py': 'from pkg.good import Good\n', 'single.py': 'import pkg\nclass S(pkg.good.Good): pass\n'}, roots=['pkg', 'other', 'single.py'])
     add('roots-same-name', {'a/pkg/__init__.py': 'x = 1\n', 'b/pkg/__init__.py': 'y = 2\n', 'b/pkg/good.py': GOOD}, roots=['a/pkg', 'b/pkg'])
